@@ -421,9 +421,10 @@ def retag(aj):
     return out
 
 
-def chained_second(rng, first_case, result1):
-    """the second step of a chain: search for the geometry of the first replacement pattern in the result of the first
-    replacement and replace it with another typed pattern (configuration compatible with what the structure now is)"""
+def chained_second(rng, first_case, result1, side="t", step=2):
+    """the next step of a chain: search for the geometry of the previous replacement pattern in the result of the previous
+    replacement and replace it with another typed pattern (configuration compatible with what the structure now is).
+    `side`: prefix of the new pattern's labels and coefficient texts (distinct per step)"""
     s2 = retag(result1)
     r1 = first_case["r"]
     if len(r1["atoms"]) == 0:
@@ -438,7 +439,7 @@ def chained_second(rng, first_case, result1):
     aligned = len(s2["types"]["pair"]) == ns and ns > 0
     if cfg.get("same_label") and not aligned:
         cfg["same_label"] = False
-    rj, rinfo = make_replacement(rng, pe, pp, cfg, side="t", allow_empty=False)
+    rj, rinfo = make_replacement(rng, pe, pp, cfg, side=side, allow_empty=False)
     nsame = 0
     if cfg.get("same_label"):
         # the atoms the second pattern retains are atoms of the first pattern: they carry ITS type labels now
@@ -446,7 +447,7 @@ def chained_second(rng, first_case, result1):
             rng, rj, {i: r1["types"]["label"][r1["atoms"][j]["ty"]] for i, j in rinfo["retained"].items()})
     opts = {"atol": 0.05, "fraction": 1.0, "replace_all": False, "ignore": False, "seed": rng.randint(0, 10 ** 6)}
     meta = {"pattern": "chain:" + first_case["meta"]["pattern"], "cell": first_case["meta"]["cell"], "combo": combos,
-            "s_pair": bool(s2["types"]["pair"]), "r_pair": cfg["r_pair"], "chain": 2, "override_planned": 0, "same_label_types": nsame}
+            "s_pair": bool(s2["types"]["pair"]), "r_pair": cfg["r_pair"], "chain": step, "override_planned": 0, "same_label_types": nsame}
     return {"s": s2, "p": search_json(pe, pp), "r": rj, "opts": opts, "meta": meta}
 
 
